@@ -230,6 +230,13 @@ def handle (args : List String) : String :=
     match parseFlags fs, parseCoords tiles, BBoxProto.parseBox b with
     | some fs, some tiles, some b => showO showTiles (stream (memSrc tiles []) (mkParams fs none) b)
     | _, _, _ => "bad-op"
+  | ["rstream", fs, req, cov, tiles, b] =>
+    -- stream of a converter restricted by a requested pyramid (the code ignores the restriction
+    -- in `get_bbox_tile_stream` just as in `get_tile_data`)
+    match parseFlags fs, parseOptPyr req, BBoxProto.parsePyr cov, parseCoords tiles, BBoxProto.parseBox b with
+    | some fs, some req, some cov, some tiles, some b =>
+      showO showTiles (stream (memSrc tiles cov) (mkParams fs req) b)
+    | _, _, _, _, _ => "bad-op"
   | ["walk", fs, req, cov, tiles] =>
     match parseFlags fs, parseOptPyr req, BBoxProto.parsePyr cov, parseCoords tiles with
     | some fs, some req, some cov, some tiles =>
